@@ -20,6 +20,13 @@ NON_DECODE_EXC = ("IndexError", "ValueError", "KeyError", "TypeError", "Overflow
                   "ZeroDivisionError", "AssertionError", "RecursionError", "MemoryError", "error")
 
 
+def negative_length(res):
+    """a size / count read back as a NEGATIVE Java integer (KF-C19-signed-size): the exception says so"""
+    import re
+    return res.get("e") in ("NegativeArraySizeException", "IndexOutOfBoundsException", "IllegalArgumentException") and \
+        bool(re.search(r"(^|[^0-9A-Za-z])-\d+", str(res.get("m") or "")))
+
+
 def corpus_texts():
     d = os.path.join(B.CORPUS, "java")
     if not os.path.isdir(d):
@@ -103,6 +110,8 @@ def main(argv):
                 if back.get("r") != "ok":
                     rep["parse"] = back
                     rep["signature"] = {"class": "roundtrip-" + str(back.get("r")), "e": back.get("e"), **tags}
+                    if negative_length(back):
+                        rep["signature"]["negative_length"] = True
                     run.violation("impl", "java parse_all(serialize(v)) for %s -> %s %s" % (T, back.get("r"), back.get("e") or ""), rep)
                 elif back.get("type") == T and W.canon(back["value"]) != W.canon(v):
                     rep["parse"] = back
@@ -152,6 +161,8 @@ def main(argv):
                             run.hist("dec_outcomes", "err-in-matching-child")
                             continue
                         rep["signature"] = {"class": "rejects-valid", "e": r.get("e"), **tags}
+                        if negative_length(r):
+                            rep["signature"]["negative_length"] = True
                         run.violation("impl", "java %s.parse_all(%s) raises %s but the reference accepts it" % (T, s.hex()[:40], r.get("e")), rep)
                     continue
                 if r.get("r") != "ok":
